@@ -9,9 +9,14 @@
                  must give the UTC instant back ("the UTC instant shifted by that offset");
    kind "frac" : fractions of a second of 1..9 digits.
 
+   kind "pat"  : format-driven reading Date(text, format): a format from PatFormats, a text generated for it from an
+                 instant (zero-padded or not), and every prefix of that text (a text that ends before the format does
+                 must be read in bounds; hazard tag PatternWildcardPastEnd where a '?' would match beyond the end).
+
    Invariants (the generator and the reading relation of Calendar.tla are independent formulations):
      ReadsOwnText : Read(FormatUTC(fmt, i)) = ReadBackOf(fmt, i)                       (kind fmt)
-     ZoneShift    : Read(text of i in zone z) = i                                      (kinds zone, frac)     *)
+     ZoneShift    : Read(text of i in zone z) = i                                      (kinds zone, frac)
+     PatternReads : ReadPattern(PatText(f, fields), f) = the instant of the fields shown (kind pat, full text)   *)
 EXTENDS Calendar, TLC, Json
 
 CONSTANTS NBases,        \* how many of the instants in Bases are used for the zone cases
@@ -52,7 +57,21 @@ ZoneCase(q) ==
          z, q[4], q[5], tf, IF tf = "hmsf" THEN <<50, 53>> ELSE <<>>)
 FracParams == {"frac"} \X (1..2) \X {0, 90, -345} \X BOOLEAN \X (1..Len(Digits9)) \X (1..9)
 FracCase(q) == Case("frac", Bases[q[2]], q[3], IF q[3] = 0 THEN "Z" ELSE "hh:mm", q[4], "hmsf", SubSeq(Digits9[q[5]], 1, q[6]))
-CaseOf(q) == IF q[1] = "fmt" THEN FmtCase(q) ELSE IF q[1] = "zone" THEN ZoneCase(q) ELSE FracCase(q)
+\* "Y-M-D h:m:s", "D/M/Y?h:m", "Y?M?D", "h:m:s D.M.Y", "Y-M-D?????????Z", "??Y-M-DTh:m", "YMD" (one digit run: not vouched)
+PatFormats == << <<89,45,77,45,68,32,104,58,109,58,115>>, <<68,47,77,47,89,63,104,58,109>>, <<89,63,77,63,68>>,
+                 <<104,58,109,58,115,32,68,46,77,46,89>>, <<89,45,77,45,68,63,63,63,63,63,63,63,63,63,90>>,
+                 <<63,63,89,45,77,45,68,84,104,58,109>>, <<89,77,68>> >>
+PatParams == {"pat"} \X (1..Len(PatFormats)) \X (1..NBases) \X BOOLEAN \X (0..30)
+HasField(f, k) == \E j \in 1..Len(f) : FieldIndex(f[j]) = k
+PatFields(f, i) == LET g == Fields(i) IN
+                   <<g.y, g.m, g.d, IF HasField(f, 4) THEN g.h ELSE 0, IF HasField(f, 5) THEN g.mi ELSE 0, IF HasField(f, 6) THEN g.s ELSE 0>>
+PatFullText(q) == PatText(PatFormats[q[2]], PatFields(PatFormats[q[2]], Bases[q[3]]), q[4], 120)
+PatCase(q) ==
+    LET f == PatFormats[q[2]] full == PatFullText(q)
+        t == IF q[5] >= Len(full) THEN full ELSE SubSeq(full, 1, q[5]) IN
+    [k |-> "pat", f |-> f, t |-> t, whole |-> q[5] >= Len(full), fld |-> PatFields(f, Bases[q[3]])]
+
+CaseOf(q) == IF q[1] = "fmt" THEN FmtCase(q) ELSE IF q[1] = "zone" THEN ZoneCase(q) ELSE IF q[1] = "pat" THEN PatCase(q) ELSE FracCase(q)
 
 \* the UTC instant a zone/frac case denotes: the base instant plus its fraction
 Denoted(cc) == IF cc.digits = <<>> THEN cc.i ELSE [cc.i EXCEPT !.us = FracMicros(cc.digits, 1, Len(cc.digits))]
@@ -66,7 +85,7 @@ TextOf(cc) ==
        \o (IF cc.variant = "Z" THEN <<cZ>> ELSE ZoneText(cc.z, cc.variant))
 
 \* (the invariants are evaluated on the published case, i.e. by TLC's workers and not while the initial states are enumerated)
-Init == phase = "gen" /\ (c \in FmtParams \/ c \in ZoneParams \/ c \in FracParams)
+Init == phase = "gen" /\ (c \in FmtParams \/ c \in ZoneParams \/ c \in FracParams \/ c \in PatParams)
 Gen == phase = "gen" /\ phase' = "done" /\ c' = CaseOf(c)
 Spec == Init /\ [][Gen]_vars
 
@@ -74,6 +93,9 @@ Spec == Init /\ [][Gen]_vars
 ReadsOwnText == (phase = "done" /\ c.k = "fmt") => \A fmt \in Formats :
                     LET r == Read(FormatUTC(fmt, c.i)) IN r.ok /\ r.i = ReadBackOf(fmt, c.i)
 ZoneShift == (phase = "done" /\ c.k \in {"zone", "frac"}) => LET r == Read(TextOf(c)) IN r.ok /\ r.i = Denoted(c)
+PatternReads == (phase = "done" /\ c.k = "pat" /\ c.whole /\ c.f # <<89, 77, 68>>) =>
+                    LET r == ReadPattern(c.t, c.f) IN
+                    r.ok /\ r.i = InstantOf(c.fld[1], c.fld[2], c.fld[3], c.fld[4], c.fld[5], c.fld[6])
 \* a text without designator, with a bad field or with a wrong week day is not a reading the spec vouches for
 Unvouched == /\ ~Read(<<50,48,50,49,45,49,49,45,50,57,84,50,51,58,51,49,58,49,48>>).ok          \* no zone
              /\ ~Read(<<50,48,50,49,45,48,50,45,50,57,84,50,51,58,51,49,58,49,48,90>>).ok       \* 2021-02-29
@@ -84,7 +106,11 @@ Unvouched == /\ ~Read(<<50,48,50,49,45,49,49,45,50,57,84,50,51,58,51,49,58,49,48
 Seq3(i) == <<i.dn, i.sod, i.us>>
 FSeq(f) == <<f.y, f.m, f.d, f.h, f.mi, f.s, f.wd>>
 FmtOrder == <<"LONG", "SHORT", "FULL", "HTTP">>
-Out(cc) == IF cc.k = "fmt"
+Out(cc) == IF cc.k = "pat"
+           THEN LET r == ReadPattern(cc.t, cc.f) IN
+                [k |-> "pread", t |-> cc.t, f |-> cc.f, ok |-> IF r.ok THEN 1 ELSE 0, i |-> Seq3(r.i),
+                 hz |-> IF PatWildcardPastEnd(cc.t, cc.f) THEN <<"PatternWildcardPastEnd">> ELSE <<>>]
+           ELSE IF cc.k = "fmt"
            THEN [k |-> "fmt", i |-> Seq3(cc.i), f |-> FSeq(Fields(cc.i)),
                  texts |-> [j \in 1..4 |-> [fmt |-> FmtOrder[j], t |-> FormatUTC(FmtOrder[j], cc.i),
                                             back |-> Seq3(ReadBackOf(FmtOrder[j], cc.i))]]]
